@@ -94,6 +94,12 @@ type tcase struct {
 	P1   pstr     `json:"p1"`
 	D2   dkind    `json:"d2"`
 	P2   pstr     `json:"p2"`
+	Swap swapspec `json:"swap"` // two nodes exchanged while this call is made (P empty: none)
+}
+
+type swapspec struct {
+	P []string `json:"p"`
+	Q []string `json:"q"`
 }
 
 // ---- observation ----
@@ -353,14 +359,18 @@ func runMain(args []string) error {
 			if f2 != "" {
 				used[i-lo].s2 = "/proc/self/fd/<" + f2 + ">/" + s2
 			}
+			swp, swq := "", ""
+			if len(c.Swap.P) > 0 {
+				swp, swq = under(ft, c.Swap.P), under(ft, c.Swap.Q)
+			}
 			fl := "-"
 			if len(c.Fl) > 0 {
 				fl = strings.Join(c.Fl, ",")
 			}
-			fmt.Fprintf(&script, "%d %s %s %d %s %s %s %s %s %s %s %s %s %s %s %s %s %s\n", i, hexs(under(ft, c.Cwd)), c.Sc, c.Acc, fl,
+			fmt.Fprintf(&script, "%d %s %s %d %s %s %s %s %s %s %s %s %s %s %s %s %s %s %s %s\n", i, hexs(under(ft, c.Cwd)), c.Sc, c.Acc, fl,
 				c.D1.Lo, c.D1.Hi, hexs(under(ft, c.D1.Dirp)), hexs(s1), hexs(f1),
 				c.D2.Lo, c.D2.Hi, hexs(under(ft, c.D2.Dirp)), hexs(s2), hexs(f2), strings.Join(c.Args, ","),
-				c.P1.Mem.token(), c.P2.Mem.token())
+				c.P1.Mem.token(), c.P2.Mem.token(), hexs(swp), hexs(swq))
 		}
 		sp := filepath.Join(top, fmt.Sprintf("script.%d", lo))
 		op := filepath.Join(top, fmt.Sprintf("out.%d", lo))
